@@ -476,6 +476,27 @@ def rule_callsites(ck):
         else:
             o.unknown('cannot tell whether `%s` are magnitude or coordinate edges' % u(call)[:80])
     ck.extra['callsite_roles'] = n
+    # the functions that bin magnitudes / coordinates for the observers do so through the kernel, and nothing in the data
+    # classes re-implements binning next to it (a sibling built on searchsorted / digitize has its own edge convention)
+    REQUIRED = ['csep.core.catalogs.AbstractBaseCatalog.magnitude_counts', 'csep.core.catalogs.AbstractBaseCatalog.spatial_magnitude_counts',
+                'csep.core.catalogs.AbstractBaseCatalog.get_mag_idx', 'csep.core.forecasts.MarkedGriddedDataSet.get_magnitude_index',
+                'csep.core.regions._bin_coordinates']
+    for q in REQUIRED:
+        f = P.func(q)
+        o = ck.ob('C02-D4.kernel', f, 'bins through bin1d_vec', f.node)
+        has = any(g is f for g, c in sites)
+        (o.ok() if has else o.fail('%s no longer bins through csep.utils.calc.bin1d_vec: lower-inclusive edges, the round-off tolerance and '
+                                   'the open last bin are properties of that kernel only' % f.short))
+    for f in P.funcs_in('csep.core.catalogs') + P.funcs_in('csep.core.forecasts'):
+        ex = None
+        for c in all_nodes(f):
+            if isinstance(c, ast.Call) and callee(P, f, c) in ('numpy.searchsorted', 'numpy.digitize', 'numpy.histogram', 'numpy.histogram2d'):
+                ex = ex or expander(P, f)
+                edges = c.args[0] if callee(P, f, c) == 'numpy.searchsorted' and c.args else (c.args[1] if len(c.args) > 1 else kw(c, 'bins'))
+                r = (role_of(ex.expand(edges)) | role_of(edges)) if edges is not None else set()
+                if r & {'mag', 'lon', 'lat'}:
+                    ck.ob('C02-D4.sibling', f, c, c).fail('`%s` bins %s edges beside bin1d_vec: a second implementation with its own edge and '
+                                                          'tolerance convention' % (u(c)[:70], '/'.join(sorted(r & {'mag', 'lon', 'lat'}))))
 
 
 def rule_generators(ck):
